@@ -69,6 +69,12 @@ def close_points(ksweep=(0, 1, 2, 3, 5, 8, 12)):
             add(f'reset-from-{frm}@{hook}', 'other', pre + [['call', 'B', 'close'], settle(0.3), ['release_all'], settle(0.3), ['sample']])
     # leaving the async-with block
     add('finished-aexit', 'same', START + one_run() + [['call', 'A', 'aexit'], settle(), ['sample']])
+    # a second close() while the first is in flight (held in the close hook / waiting for the run): it must not raise
+    # and must not disturb the first; a third one after the first has returned finds the state closed
+    add('closing@close-hook', 'other', START + [['hold', 'close'], ['call', 'A', 'close'], settle(0.3), ['call', 'B', 'close'], settle(0.3),
+                                               ['release_all'], settle(0.3), ['call', 'C', 'close'], settle(), ['sample']])
+    add('closing@waiting-for-run', 'other', START + RUN_A + [['call', 'A', 'close'], settle(0.3), ['call', 'B', 'close'], settle(0.3),
+                                                           ['child', 'return'], settle(0.4), ['call', 'C', 'close'], settle(), ['sample']])
     return out
 
 
@@ -297,6 +303,16 @@ def continuous():
                      ['call', 'D', 'send', {'command': 'next', 'prompt_no': 1, 'trace_no': 1}], settle(0.5), ['sample'],
                      ['child', 'return'], settle(0.3)]
     out.append(S(steps, dict(family='continuous', case='refused-during-close', point='running-open-prompt', who='other', expect_complete=False), config={'answer': None}))
+    # two requests overlapping while the first run is STARTING (the second lands k loop hops after the first, i.e.
+    # between the first taking the lock and its run's on_start_run): one is refused; whatever prompt is left open
+    # is answered by hand; after the run the flag must be off, and a plain run after a reset is not auto-answered
+    for k in (0, 1, 2, 3, 5, 8):
+        for api2 in ('run_and_continue', 'run_continue_and_wait'):
+            steps = START + [['call', 'A', 'run_and_continue'], ['hops', k], ['call', 'B', api2], settle(0.6)] + en + \
+                [['answer_open'], settle(0.3), ['child', 'return'], settle(0.5), ['child_reset']] + en + \
+                [['call', 'A', 'reset'], settle()] + en + [['call', 'A', 'run'], settle(0.6), ['sample'], ['answer_open'], settle(0.3),
+                 ['child', 'return'], settle(0.4)] + en + [['sample']]
+            out.append(S(steps, dict(family='continuous', case=f'overlapping-requests:{api2}:k{k}'), config={'answer': None}))
     # a continuous run in progress, a close waiting for it, and one more request pending behind the close:
     # the request is refused after the object is closed; the flag must be off then
     for api in ('run_and_continue', 'run_continue_and_wait'):
